@@ -64,7 +64,7 @@ Definition option_eqb {A} (eqb : A -> A -> bool) (x y : option A) : bool :=
   | _, _ => false
   end.
 
-Definition pair_eqb {A B} (ea : A -> A -> bool) (eb : B -> B -> bool) (x y : A * B) : bool :=
+Definition prod_eqb {A B} (ea : A -> A -> bool) (eb : B -> B -> bool) (x y : A * B) : bool :=
   ea (fst x) (fst y) && eb (snd x) (snd y).
 
 Definition sumZ (l : list Z) : Z := fold_right Z.add 0 l.
